@@ -879,7 +879,9 @@ const OP_CORPUS: [&str; 10] = [
 
 fn main() {
     let args = Args::parse();
-    quiet_panics();
+    if std::env::var("NV_LOUD").is_err() {
+        quiet_panics();
+    }
     let mut rep = Report::new(
         "C16",
         "strings over {backslash, back-tick, $, {, }, quote, LF, CR, TAB, controls, astral} (distinct texts containing a character the writers treat specially); \
